@@ -93,6 +93,17 @@ class EndpointCollection:
                     )
                 if not isinstance(endpoint, ParseError):
                     endpoint = Endpoint.sort_parameters(endpoint=endpoint)
+                if not isinstance(endpoint, ParseError):
+                    module_name = utils.PythonIdentifier(endpoint.name, config.field_prefix)
+                    if any(
+                        utils.PythonIdentifier(other.name, config.field_prefix) == module_name
+                        for collection in collections
+                        for other in collection.endpoints
+                    ):
+                        endpoint = ParseError(
+                            detail=f"The module name {module_name} is already used by another operation with the same tag",
+                            data=operation,
+                        )
                 if isinstance(endpoint, ParseError):
                     endpoint.header = f"WARNING parsing {method.upper()} {path} within {'/'.join(tags)}. Endpoint will not be generated."
                     for collection in collections:
